@@ -37,6 +37,11 @@ def std_gate_rows():
     for m in re.finditer(r'\(\s*vec!\[([^\]]*)\]\s*,\s*\[\s*(\d+)\s*,\s*(\d+)\s*\]\s*,?\s*\)', text):
         for nm in re.findall(r'"(\w+)"', m.group(1)):
             rows.append((nm, int(m.group(2)), int(m.group(3))))
+    # every string literal of the function has to be a gate name of a row this reader understood: a table written in another
+    # shape (arrays, a const, a helper) is not a broken table, it is text this reader cannot judge
+    text_nc = re.sub(r'//[^\n]*', '', text)
+    if not rows or len(re.findall(r'"[^"\n]*"', text_nc)) != len(rows):
+        return None
     return rows
 
 
@@ -53,7 +58,7 @@ def std_gate_arity_obligations():
     for n in names:
         out.append('    reveal_strlit("%s"); assert(%s);' % (n, ' && '.join(['"%s"@.len() == %d' % (n, len(n))] + ['"%s"@[%d] == \'%s\'' % (n, i_, c_) for i_, c_ in enumerate(n)])))
     if rows is None:
-        out.append('    assert(false);      //@C09:std-gate-table-found')
+        out.append('    assert(false);      // the gate table of /repo is not in the shape `(vec![names], [angles, qubits])` this reader understands: undecided, not a verdict')
     else:
         for nm, a, q in rows:
             out.append('    assert(std_gate_arity("%s"@) == Some((%dnat, %dnat)));      //@C09,C13:std-gate-has-the-arity-of-the-library' % (nm, a, q))
